@@ -55,6 +55,10 @@ CODEGEN_PLAN = [
     {'file': 'codegen/src/choice.rs', 'items': [
         {'kind': 'fn', 'match': r'^fn combine_arities_for_choice\('},
     ]},
+    {'file': 'codegen/src/optional.rs', 'items': [
+        {'kind': 'match_as_fn', 'match': r'^fn set_arity_to_optional\(', 'assign': 'value.arity = match value.arity',
+         'as': 'set_arity_to_optional__element', 'param': 'value_arity', 'type': 'Arity'},
+    ]},
     {'file': 'codegen/src/grammar/generated.rs', 'items': [
         {'kind': 'type', 'match': r'^pub type HexChar = char$'},
         {'kind': 'type', 'match': r'^pub struct HexaEscape$'},
